@@ -146,11 +146,16 @@ class Parameter(AbstractParameter):
         .. function:: to(device)
         """
         if len(args) == 0:
-            self._tensor = self._tensor.to(
+            tensor = self._tensor.to(
                 device=kwargs.get("device", None), dtype=kwargs.get("dtype", None)
             )
         else:
-            self._tensor = self._tensor.to(args[0])
+            tensor = self._tensor.to(args[0])
+        if tensor is not self._tensor and tensor.requires_grad and not tensor.is_leaf:
+            # the conversion of a tensor that requires grad is an operation of the
+            # graph: keep the parameter a leaf so that it still receives gradients
+            tensor = tensor.detach().requires_grad_(True)
+        self._tensor = tensor
 
     @staticmethod
     def json_factory(id_: str, **kwargs):
